@@ -25,6 +25,8 @@ def main():
         idx = list(range(s, min(end, s + CH)))
         if mode == "serial":
             items = idx
+        elif mode == "ext":
+            items = [{"e": i} for i in idx]
         else:
             items = []
             for i in idx:
